@@ -21,6 +21,12 @@ func init() {
 }
 
 func runC01(c *Ctx) {
+	c.rule("copier-all-exported", "(shared with C02) the copy of the defaults that every stack starts from descends into every exported field, and its field loop ends only by exhaustion (a field left shallow-copied is shared with the private template, and a later stack shows a stale value where no layer sets the leaf)", 2)
+	c.rule("flatten-flag-accumulates", "(shared with C10/C11) in the flatten unmangler the 'any child set' flag only grows: a leaf set by a layer is not lost because a later nested struct of the same parent has nothing set", 3)
+	if cp := loadCopier(c); cp != nil {
+		c02AllExported(c, cp, "copier-all-exported")
+	}
+	c10FlattenFlag(c)
 	c.rule("order-config", "Config fills slot i from sources[i].Value(...) with the same range index, once, in a forward range, and never reorders the slot slice", 2)
 	c.rule("order-compose", "compose overlays its slots in a forward range (index = induction variable + 1 from -1), each iteration overlaying the element at that index onto the one base defined before the loop", 2)
 	c.rule("struct-ptr-merges", "in the leaf overlay a base pointer is replaced wholesale by (something derived from) the overlay only when the base pointer is nil, its pointee type is not a struct, or it is a text-unmarshaler struct; a struct base is replaced wholesale only when it is a text-unmarshaler struct: nested structs merge field by field", 4)
